@@ -9,12 +9,12 @@ git -C $WT apply -3 $PATCH 2>/dev/null || { echo "$ID patch failed"; git -C /rep
 mkdir -p /tmp/tcheck-try/$ID && cp /verif/known_findings.json /tmp/tcheck-try/$ID/
 alarms=0
 for P in "${PROPS[@]}"; do
-  TCHECK_REPO=$WT TCHECK_VERIF=/tmp/tcheck-try/$ID /verif/bin/tcheck $P --tier quick > /tmp/tcheck-try/$ID/out.txt 2>&1
+  TCHECK_REPO=$WT TCHECK_VERIF=/tmp/tcheck-try/$ID ${TCHECK_BIN:-/verif/bin/tcheck} $P --tier quick > /tmp/tcheck-try/$ID/out.txt 2>&1
   rc=$?
   if [ $rc -ne 0 ]; then
     alarms=$((alarms+1))
     echo "ALARM $ID $P exit=$rc"
-    grep -E "violation\]|undecided\]" /tmp/tcheck-try/$ID/out.txt | head -${LINES_MAX:-4} | cut -c1-${COLS_MAX:-400}
+    grep -E "violation\]|undecided\]|^UNDECIDED|^panic|rule .* panicked" /tmp/tcheck-try/$ID/out.txt | head -${LINES_MAX:-4} | cut -c1-${COLS_MAX:-400}
   fi
 done
 echo "benign=$ID alarms=$alarms"
